@@ -937,7 +937,7 @@ theorem tie_compact_job :
       "merger.Init", "it.HasNext", "it.Key", "it.Value", "append", "merger.Merge", "append", "len",
       "merger.Merge", "c.finishCompactionOutputFile"] ∧
     Generated.C03.installCalls = ["compaction.MarkInputDeletes", "compaction.GetLevel",
-      "compaction.AddFile", "compaction.GetEditLog", "family.commitEditLog"] ∧
+      "compaction.AddFile", "compaction.GetEditLog", "family.commitEditLog", "family.familyInfo", "fmt.Errorf"] ∧
     Generated.C03.afterAddCheck = "cf.compactJob.state.builder.Size() >= cf.compactJob.state.maxFileSize" ∧
     Generated.C03.overlapSkipCheck = "fileMeta.GetMaxKey() < minKey || fileMeta.GetMinKey() > maxKey" ∧
     Generated.C03.findFilesCheck = "key >= file.GetMinKey() && key <= file.GetMaxKey()" ∧
@@ -1024,14 +1024,15 @@ theorem tie_find_files :
   refine ⟨rfl, rfl, rfl⟩
 
 /-- `mergeCompaction`: the error of `doMerge` is the function's named result, the results are installed
-only on the path after `doMerge` returned nil, the deferred literal only cleans up and logs
+only on the path after `doMerge` returned nil and (since fix f4ef1f5) a failed manifest commit is the job's error,
+the deferred literal only cleans up and logs
 (seeded c03-10 installs from the defer, guarded by a shadowed `err`) -/
 theorem tie_merge_compaction :
     Generated.C03.mergeCompactionResults = ["err"] ∧
     Generated.C03.mergeCompactionDeferCalls = ["c.cleanupCompaction", "time.Since", "family.familyInfo",
       "logger.String", "logger.String", "elapsed.String", "logger.String", "kvLogger.Info"] ∧
     Generated.C03.mergeCompactionTail = ["if err := c.doMerge(); err != nil { return err }",
-      "c.installCompactionResults()", "return nil"] := by
+      "return c.installCompactionResults()"] := by
   refine ⟨rfl, rfl, rfl⟩
 
 /-- the union bitmap of `prepare` is a new one, never assigned afterwards, only or-ed into
